@@ -1,4 +1,5 @@
 import BppProofs.Lemmas.Number
+import BppProofs.Lemmas.NumberToInt
 import Mathlib.Tactic.NormNum
 /-!
 # C17 — write-then-read round trips and exact grammars: numbers
@@ -127,34 +128,34 @@ theorem toInt_raises {sci : Char} (hs : isDigit sci = false) (s : Str) (h : ¬ D
     · exact absurd ((integer_accepts_iff_grammar hs s).mp hh) h
   simp [toInt, this]
 
-/-- what `toInt` returns on a grammatical integer: the mantissa, clamped to the `int` range
-(`istringstream >> int` stops at the exponent mark) -/
-theorem toInt_reads_mantissa {sci : Char} (hs : isDigit sci = false) (p : IntParts) (hwf : p.WF) :
-    toInt sci (p.render sci)
+/-- **`toInt` returns the value the grammar assigns** (mantissa times power of ten) when it is an
+`int`, and raises otherwise — the full statement, since the repair "fix: TextTools::toInt ignored the
+exponent it accepts" -/
+theorem toInt_value {sci : Char} (hs : isDigit sci = false) (p : IntParts) (hwf : p.WF) :
+    toInt sci (p.render sci) = if intMin ≤ p.value ∧ p.value ≤ intMax then some p.value else none :=
+  toInt_render hs p hwf
+
+/-- what the code before that repair returned on a grammatical integer: the mantissa, clamped to the
+`int` range (`istringstream >> int` stops at the exponent mark) -/
+theorem toIntOld_reads_mantissa {sci : Char} (hs : isDigit sci = false) (p : IntParts) (hwf : p.WF) :
+    toIntOld sci (p.render sci)
       = some (clampInt (if p.neg then - (digitsVal p.ip : Int) else (digitsVal p.ip : Int))) := by
   have hp := parseInteger_complete hs p hwf
   have hacc : isDecimalInteger sci (p.render sci) = true := by
     rw [isDecimalInteger_eq_parse hs, hp]; rfl
-  simp [toInt, hacc, streamInt_of_parse hs hp]
+  simp [toIntOld, hacc, streamInt_of_parse hs hp]
 
-/-- FULL statement `toInt_value : toInt sci (p.render sci) = some (clampInt p.value)` is FALSE of the
-code (witness below: the exponent is ignored; recorded as finding C17-toint-ignores-exponent).
-Proved under the guard "no exponent part". -/
-theorem toInt_value_partial {sci : Char} (hs : isDigit sci = false) (p : IntParts) (hwf : p.WF)
-    (hex : p.ex = none) : toInt sci (p.render sci) = some (clampInt p.value) := by
-  rw [toInt_reads_mantissa hs p hwf]
-  simp [IntParts.value, hex]
-
-/-- witness: "1e2" is accepted, the grammar's value is 100, `toInt` returns 1 -/
+/-- witness against the code as found: "1e2" is accepted, the grammar's value is 100, the old
+`toInt` returned 1 -/
 theorem toInt_exponent_witness :
     (⟨false, ['1'], some (false, ['2'])⟩ : IntParts).WF ∧
     (⟨false, ['1'], some (false, ['2'])⟩ : IntParts).render 'e' = ['1', 'e', '2'] ∧
     (⟨false, ['1'], some (false, ['2'])⟩ : IntParts).value = 100 ∧
-    toInt 'e' ['1', 'e', '2'] = some 1 := by
+    toIntOld 'e' ['1', 'e', '2'] = some 1 := by
   have hwf : (⟨false, ['1'], some (false, ['2'])⟩ : IntParts).WF := by
     refine ⟨?_, ?_, ?_, ?_⟩ <;> simp [AllDigits, isDigit]
   refine ⟨hwf, rfl, by decide, ?_⟩
-  have := toInt_reads_mantissa (sci := 'e') (by decide) _ hwf
+  have := toIntOld_reads_mantissa (sci := 'e') (by decide) _ hwf
   simpa [IntParts.render, digitsVal, digitVal, clampInt, intMin, intMax] using this
 
 /-- `toInt (toString n) = n` for every `int` -/
@@ -166,17 +167,25 @@ theorem int_roundtrip {sci : Char} (hs : isDigit sci = false) (n : Int) (hlo : i
   have hr : intToString n = p.render sci := by
     unfold intToString IntParts.render
     by_cases hn : n < 0 <;> simp [p, hn]
-  rw [hr, toInt_reads_mantissa hs p hwf]
-  simp only [p, h3]
-  congr 1
-  unfold clampInt
-  by_cases hn : n < 0
-  · simp only [hn, decide_true, if_true]
-    have : -(n.natAbs : Int) = n := by omega
-    rw [this]; simp only [intMin, intMax] at *; omega
-  · simp only [hn, decide_false]
-    have : (n.natAbs : Int) = n := by omega
-    simp only [Bool.false_eq_true, if_false, this]; simp only [intMin, intMax] at *; omega
+  have hv : p.value = n := by
+    simp only [IntParts.value, p, h3]
+    by_cases hn : n < 0
+    · simp only [hn, decide_true, if_true]; omega
+    · simp only [hn, decide_false, Bool.false_eq_true, if_false]; omega
+  rw [hr, toInt_value hs p hwf, hv]
+  simp [hlo, hhi]
+
+/-- "1e2" is 100 now, and a numeral beyond the range raises (it was clamped to `INT_MAX` before) -/
+example : toInt 'e' ['1', 'e', '2'] = some 100 ∧ toInt 'e' ['5', 'e', '9'] = none := by
+  have hwf1 : (⟨false, ['1'], some (false, ['2'])⟩ : IntParts).WF := by
+    refine ⟨?_, ?_, ?_, ?_⟩ <;> simp [AllDigits, isDigit]
+  have hwf2 : (⟨false, ['5'], some (false, ['9'])⟩ : IntParts).WF := by
+    refine ⟨?_, ?_, ?_, ?_⟩ <;> simp [AllDigits, isDigit]
+  have h1 := toInt_value (sci := 'e') (by decide) _ hwf1
+  have h2 := toInt_value (sci := 'e') (by decide) _ hwf2
+  constructor
+  · simpa [IntParts.render, IntParts.value, digitsVal, digitVal, intMin, intMax] using h1
+  · simpa [IntParts.render, IntParts.value, digitsVal, digitVal, intMin, intMax] using h2
 
 /-- non-vacuity of `int_roundtrip` at the limits -/
 example : toInt 'e' (intToString intMin) = some intMin ∧ toInt 'e' (intToString intMax) = some intMax :=
